@@ -4,7 +4,9 @@ import (
 	"encoding/json"
 	"fmt"
 	"os"
+	"path/filepath"
 	"reflect"
+	"regexp"
 	"strings"
 
 	"verif/harness/internal/ev"
@@ -240,7 +242,7 @@ func CheckC04(run *ev.Run) {
 			}
 			paths[o.path] = map[string]interface{}{o.method: opd}
 		}
-		doc := map[string]interface{}{"swagger": "2.0", "info": map[string]interface{}{"title": "pair", "version": "1"}, "consumes": []string{"application/json"}, "produces": []string{"application/json"},
+		doc := map[string]interface{}{"swagger": "2.0", "info": map[string]interface{}{"title": "pair", "version": "1"}, "consumes": []string{"application/json", "application/xml"}, "produces": []string{"application/json"},
 			"paths": paths, "definitions": map[string]interface{}{"thing": map[string]interface{}{"type": "object", "properties": map[string]interface{}{
 				"name": map[string]interface{}{"type": "string"}, "count": map[string]interface{}{"type": "integer"}, "tags": map[string]interface{}{"type": "array", "items": map[string]interface{}{"type": "string"}}}}}}
 		spec, _ := json.MarshalIndent(doc, "", " ")
@@ -256,6 +258,45 @@ func CheckC04(run *ev.Run) {
 				pb.Remove()
 			}
 			continue
+		}
+		// media types: every generated client operation declares exactly the effective consumes / produces of its operation
+		// (the operation's own list, else the spec's), in this order
+		if cb, rerr := os.ReadFile(filepath.Join(pb.Root, "target", "client", "operations", "operations_client.go")); rerr == nil {
+			for oi, o := range ops {
+				wantC := []string{"application/json", "application/xml"}
+				if oi == 1 {
+					wantC = []string{"application/x-www-form-urlencoded"}
+				}
+				wantP := []string{"application/json"}
+				blk := ""
+				if i := strings.Index(string(cb), fmt.Sprintf("ID:                 %q", o.name)); i >= 0 {
+					blk = string(cb)[i:]
+					if j := strings.Index(blk, "}\n"); j >= 0 {
+						blk = blk[:j]
+					}
+				} else if m := regexp.MustCompile(`ID:\s+"` + regexp.QuoteMeta(o.name) + `"(?s:.*?)Reader:`).FindString(string(cb)); m != "" {
+					blk = m
+				}
+				got := map[string][]string{}
+				for _, m := range regexp.MustCompile(`(Consumes|Produces)MediaTypes:\s+\[\]string\{([^}]*)\}`).FindAllStringSubmatch(blk, -1) {
+					for _, q := range regexp.MustCompile(`"([^"]*)"`).FindAllStringSubmatch(m[2], -1) {
+						got[m[1]] = append(got[m[1]], q[1])
+					}
+				}
+				run.Case("media|" + o.name)
+				if blk == "" {
+					st["media-census-unreadable"]++
+					continue
+				}
+				if !reflect.DeepEqual(got["Consumes"], wantC) || !reflect.DeepEqual(got["Produces"], wantP) {
+					st["MEDIA-TYPES-DIFFER"]++
+					run.Deviation("client-media-types-differ", fmt.Sprintf("the generated client operation %s declares consumes %v / produces %v; the spec says %v / %v", o.name, got["Consumes"], got["Produces"], wantC, wantP),
+						map[string]interface{}{"spec": json.RawMessage(spec), "operation": o.name, "client_consumes": got["Consumes"], "client_produces": got["Produces"], "spec_consumes": wantC, "spec_produces": wantP,
+							"how": "swagger generate client; read ConsumesMediaTypes / ProducesMediaTypes of the operation in client/operations/operations_client.go"})
+				} else {
+					st["media-types-agree"]++
+				}
+			}
 		}
 		for ci := 0; ci < nCalls; ci++ {
 			o := ops[ci%2]
